@@ -1,5 +1,6 @@
 #!/bin/bash
 # Differential validation of the simulated disk against the kernel (DESIGN.md 7.3)
-. /verif/scripts/env.sh
-cd /verif && ./scripts/build.sh || exit 2
-VERIF_DISKTEST=1 VERIF_RUNS=${1:-500} /verif/build/harness.test -test.run '^TestDiskVsKernel$'
+ROOT=$(cd "$(dirname "$0")/.." && pwd)
+. "$ROOT/scripts/env.sh"
+cd "$ROOT" && ./scripts/build.sh || exit 2
+VERIF_DISKTEST=1 VERIF_RUNS=${1:-500} $ROOT/build/harness.test -test.run '^TestDiskVsKernel$'
